@@ -80,7 +80,8 @@ def state_name(st) -> str:
 
 
 def run_in_state(prog, fn: Function, st, config: Optional[Dict[str, T]] =
-                 None, self_cls=None, inline_helpers=True) -> Result:
+                 None, self_cls=None, inline_helpers=True,
+                 extra_assume=None) -> Result:
     """interpret method fn with the cache configuration st folded"""
     selfp = tm.param(fn.params[0])
     it = Interp(prog, inline_properties=True, max_depth=4)
@@ -96,6 +97,8 @@ def run_in_state(prog, fn: Function, st, config: Optional[Dict[str, T]] =
                 return cur.op != "deleted"
             if name in state:
                 return state[name]
+        if extra_assume is not None:
+            return extra_assume(t)
         return None
     it.assume = assume
     traj_mod = fn.module.name
@@ -411,6 +414,8 @@ def _derived(ctx, prog):
     xa = tm.param(fa.params[0])
     # (private helpers of geometry.py are looked through)
     ra = Interp(prog, inline_properties=False).run(fa).ret
+    if is_call_to(ra, "builtins.float") and len(ra.args[1]) == 1:
+        ra = ra.args[1][0]
     nrm = ra.args[1][0] if is_call_to(ra, "numpy.sum", ".sum") and \
         ra.args[1] else (tm.method_recv(ra) if is_call_to(ra, ".sum")
                          else None)
@@ -577,6 +582,12 @@ def _is_block(t: T, kind: str) -> bool:
 
 def _is_per_pose(v: T, selfp: T, pred) -> bool:
     """np.array([ f(p) for p in self._poses_se3 ])"""
+    if is_call_to(v, ".reshape") and len(v.args[1]) == 2 and \
+            tm.is_const(v.args[1][0], -1) and tm.is_const(v.args[1][1]) and \
+            tm.method_recv(v) is not None:
+        # .reshape(-1, width) of the stacked rows keeps every row (it only
+        # fixes the shape of an empty result)
+        v = tm.method_recv(v)
     if v.op == "call" and is_call_to(v, "numpy.array", "numpy.asarray") \
             and v.args[1]:
         v = v.args[1][0]
@@ -640,10 +651,18 @@ def _transform(ctx, prog):
                 "transform(t, right_mul, propagate) signature changed")
     tpar = tm.param("t")
     st = (True, True, True)
+
+    def rigid(a: T):
+        # the multiplication clauses are about a rigid T: a separate
+        # treatment of Sim(3) matrices is decided for the SE(3) case
+        if is_call_to(a, "evo.core.lie_algebra.is_se3") and a.args[1] and \
+                a.args[1][0] is tpar:
+            return True
+        return None
     for rm, pr in itertools.product([False, True], repeat=2):
         res = run_in_state(prog, f, st, {"right_mul": const(rm),
                                          "propagate": const(pr)},
-                           prog.cls(PATH))
+                           prog.cls(PATH), extra_assume=rigid)
         ctx.analysed["configs"] += 1
         mode = f"right_mul={rm},propagate={pr}"
         final = res.attrs.get((selfp, M))
@@ -771,6 +790,12 @@ def _propagate(ctx, f, res: Result, selfp: T, tpar: T, mode: str):
         v = e.data["value"]
         if v.op == "list" and len(v.args) == 1 and v.args[0].op == "sub" \
                 and tm.is_const(v.args[0].args[1], 0):
+            ok3 = True
+        # list(poses[:1]) / poses[:1]: the first pose, or nothing if empty
+        w = v.args[1][0] if is_call_to(v, "builtins.list") and \
+            len(v.args[1]) == 1 else v
+        if w.op == "sub" and w.args[1] is T("slice", tm.NONE, const(1),
+                                           tm.NONE):
             ok3 = True
     ctx.ob("C08.5", f, ok3,
            "transform[propagate]: the first pose is kept" if ok3 else
